@@ -195,7 +195,10 @@ def run(tier, seed):
     for kind, pref in (("init", [240, 0]), ("ping", [1756, 251]), ("account", [239])):
         ch = choices.Chooser(pref)
         _script.chooser = ch
-        g = {"init": m.InitSequenceStart, "ping": m.PingSequenceStart, "account": m.AccountReplySequenceStart}[kind].generate()
+        g, exc = _generate(kind, m, ch)
+        if g is None:
+            samples.append({"kind": kind, "draws": ch.choices, "raised": exc})
+            continue
         samples.append({"kind": kind, "draws": ch.choices, "value": g.value, "seq1": getattr(g, "seq1", None), "seq2": getattr(g, "seq2", None)})
     coverage = {
         "evaluations": total,
